@@ -40,7 +40,11 @@ Record devinfo_code := {
   c_reject_read_code : expr; c_exc_read_code : Z;
   c_lookup : list (Z * lookup);
   c_more_nothing : Z; c_more_keep : Z;
-  c_basic : Z; c_regular : Z; c_extended : Z; c_specific : Z
+  c_basic : Z; c_regular : Z; c_extended : Z; c_specific : Z;
+  (* configuration API of ModbusDeviceIdentification *)
+  c_init_accepts : expr;                    (* __init__(info): the key filter, atom key *)
+  c_setitem_excluded : list Z;              (* __setitem__: `if key not in [7, 8]` *)
+  c_properties : list (string * Z)          (* VendorName = dict_property(lambda s: s.__data, 0) ... *)
 }.
 
 (* ------------------------------------------------------------------ identities, objects *)
@@ -61,7 +65,38 @@ Definition obj_nonempty (o : object) : bool := nonempty (snd o).
 Definition objects_of (idn : identity) (ids : list Z) : list object :=
   filter obj_nonempty (map (fun k => (k, idn k)) ids).
 
+(* ---- configuration histories: the public API through which an identity gets its content.
+   All instances share ONE class-level dict, so every operation - including the constructor of
+   a fresh ModbusDeviceIdentification - acts on the same map. *)
+Inductive cfg_op :=
+| CInit (l : list object)                   (* ModbusDeviceIdentification(info={k: v, ...}) *)
+| CUpdate (l : list object)                 (* Identity.update({k: v, ...}) *)
+| CSetItem (k : Z) (v : bytes)              (* Identity[k] = v *)
+| CProp (name : string) (v : bytes).        (* Identity.VendorName = v, ... *)
+
+(* the dict as a stack of writes; [id_of] reads the most recent write of a key *)
+Definition cfg_set (m : list object) (k : Z) (v : bytes) : list object := (k, v) :: m.
+
 (* ================================================================== SPEC SIDE ===== *)
+
+(* what an identity holds after a configuration history: the last value written per object
+   id; a blank value withdraws the object.  The constructor takes ids 0-6 and 0x80-0xFF,
+   item assignment everything but the reserved ids 7 and 8 (docstrings of device.py). *)
+Definition spec_prop_id (name : string) : option Z :=
+  if String.eqb "VendorName" name then Some 0 else if String.eqb "ProductCode" name then Some 1
+  else if String.eqb "MajorMinorRevision" name then Some 2 else if String.eqb "VendorUrl" name then Some 3
+  else if String.eqb "ProductName" name then Some 4 else if String.eqb "ModelName" name then Some 5
+  else if String.eqb "UserApplicationName" name then Some 6 else None.
+
+Definition spec_apply (m : list object) (o : cfg_op) : list object :=
+  match o with
+  | CInit l => fold_left (fun m kv => if ((0 <=? fst kv) && (fst kv <=? 6)) || ((128 <=? fst kv) && (fst kv <=? 255))
+                                      then cfg_set m (fst kv) (snd kv) else m) l m
+  | CUpdate l => fold_left (fun m kv => cfg_set m (fst kv) (snd kv)) l m
+  | CSetItem k v => if (k =? 7) || (k =? 8) then m else cfg_set m k v
+  | CProp n v => match spec_prop_id n with Some k => cfg_set m k v | None => m end
+  end.
+Definition spec_configured (h : list cfg_op) : list object := fold_left spec_apply h [].
 
 Definition basic_ids : list Z := [0; 1; 2].
 Definition regular_ids : list Z := [0; 1; 2; 3; 4; 5; 6].
@@ -101,6 +136,20 @@ Fixpoint zlookup {A} (k : Z) (l : list (Z * A)) : option A :=
   | [] => None
   | (k', v) :: t => if k' =? k then Some v else zlookup k t
   end.
+
+(* one configuration operation as the code performs it *)
+Fixpoint slookup (k : string) (l : list (string * Z)) : option Z :=
+  match l with [] => None | (k', v) :: t => if String.eqb k' k then Some v else slookup k t end.
+
+Definition cfg_apply (m : list object) (o : cfg_op) : list object :=
+  match o with
+  | CInit l => fold_left (fun m kv => if beval (env_of [("key", fst kv)]) (c_init_accepts C)
+                                      then cfg_set m (fst kv) (snd kv) else m) l m
+  | CUpdate l => fold_left (fun m kv => cfg_set m (fst kv) (snd kv)) l m      (* self.__data.update(value) *)
+  | CSetItem k v => if existsb (Z.eqb k) (c_setitem_excluded C) then m else cfg_set m k v
+  | CProp n v => match slookup n (c_properties C) with Some k => cfg_set m k v | None => m end
+  end.
+Definition configured (h : list cfg_op) : list object := fold_left cfg_apply h [].
 
 Definition ids_of_range (r : idrange) (i : Z) : list Z :=
   let rho := env_of [("i", i)] in
